@@ -283,6 +283,73 @@ pub fn run(ctx: &mut Ctx) {
         }
         ctx.end(i);
     }
+    // ---- archives from OTHER writers that are valid but not deduplicated / not run-length merged:
+    // opening and re-writing them must produce the exact, minimal form as well
+    let nf = ctx.n(240, 5000);
+    for k in 0..nf {
+        let i = n + k;
+        if !ctx.mine(i) {
+            continue;
+        }
+        ctx.begin(i);
+        let mut rng = ctx.rng("c10.foreign", k);
+        let codec = R::CODECS[(k % 4) as usize];
+        let mut o = gen::gen_foreign_opts(&mut rng, codec, 1500);
+        o.dup_contents = true;
+        o.n_entries = o.n_entries.max(6);
+        let f = gen::gen_foreign(&mut rng, &o);
+        if R::validate(&f.bytes, &crate::checks::c03::foreign_opts()).is_err() {
+            ctx.inconclusive("C10: foreign generator produced an invalid archive");
+            ctx.end(i);
+            continue;
+        }
+        let mut l = gen::gen_logical(&mut rng, SizeClass::Empty, codec);
+        for (id, (off, len)) in &f.truth {
+            l.tiles.insert(*id, Rc::new(f.bytes[*off as usize..*off as usize + *len as usize].to_vec()));
+        }
+        // a few in-memory tiles on top: duplicates of reader-backed contents under new ids, and fresh contents
+        let extra: Vec<(u64, Rc<Vec<u8>>)> = (0..rng.usize(0, 4))
+            .filter_map(|_| {
+                let src = l.tiles.values().nth(rng.usize(0, l.tiles.len().saturating_sub(1))).cloned()?;
+                let id = l.tiles.keys().next_back().copied().unwrap_or(0) + 1 + rng.below(3);
+                Some((id, if rng.chance(1, 2) { src } else { Rc::new(rng.bytes(9)) }))
+            })
+            .collect();
+        let mat: Value = json!({"source": f.layout, "source_entries": f.entries.len(), "tiles": f.truth.len(), "extra_in_memory": extra.len()});
+        let asyncm = k % 2 == 1;
+        let built = guard(|| -> Result<Vec<u8>, String> {
+            let mut arch = if asyncm { Arch::open_async(f.bytes.clone()) } else { Arch::open_sync(f.bytes.clone()) }.map_err(|e| e.to_string())?;
+            for (id, c) in &extra {
+                arch.add(*id, c.as_ref().clone()).map_err(|e| e.to_string())?;
+            }
+            arch.save().map_err(|e| e.to_string())
+        });
+        for (id, c) in &extra {
+            l.tiles.insert(*id, c.clone());
+        }
+        ctx.case(hash_u64s(&[crate::rng::hash_bytes(&f.bytes), 10]), l.has_duplicates());
+        match built {
+            Err(p) => ctx.panic("PMTiles::to_writer", &p, mat),
+            Ok(Err(e)) => ctx.violation("PMTiles::to_writer", "error", "re-writing an opened foreign archive failed", &e, mat),
+            Ok(Ok(bytes)) => match archive_clauses(&bytes, &l) {
+                Ok(_) => {
+                    ctx.count("foreign_rewrites_minimal");
+                    if l.has_duplicates() {
+                        ctx.count("foreign_sources_with_duplicate_contents");
+                    }
+                }
+                Err(e) => {
+                    let clause = if e.contains("could be merged") || e.contains("the minimum is") {
+                        "run-length encoding is not minimal (re-written foreign archive)"
+                    } else {
+                        "a content is stored more than once / dedup accounting wrong (re-written foreign archive)"
+                    };
+                    ctx.violation("PMTiles::to_writer", "not-minimal", clause, &e, mat);
+                }
+            },
+        }
+        ctx.end(i);
+    }
     let _ = BTreeMap::<u8, u8>::new();
     let _ = HashSet::<u8>::new();
 }
